@@ -153,6 +153,8 @@ pub struct CheckInputs<'a> {
     pub can_start: Vec<u8>,
     pub installs: Vec<&'a Vec<u8>>,
     pub reboot_needed: Vec<bool>,
+    /// the request could not be constructed (junk service URL): the class the check ended with, no exchange at all
+    pub construction_failure: Option<String>,
 }
 
 fn four(v: &str) -> String {
@@ -253,7 +255,12 @@ pub fn walk_check(inp: &CheckInputs) -> Expect {
             None => {
                 // no further attempt in the log
                 if k == 1 {
-                    return e; // not even one attempt: the log was cut short
+                    if let Some(class) = &inp.construction_failure {
+                        // the request could not even be built: a failed check, nothing heard from the server
+                        fail(&mut e, class.clone(), "internal");
+                        e.complete = true;
+                    }
+                    return e; // otherwise not even one attempt: the log was cut short
                 }
                 // the library gave up after k-1 attempts although a retry was allowed; retries are optional, so
                 // the check simply ends with the last failure
@@ -589,7 +596,7 @@ pub fn checks(log: &[Op]) -> Vec<CheckSeg> {
 
 /// Answers recorded inside a check segment, in order.
 pub fn inputs_of<'a>(log: &'a [Op], seg: &CheckSeg, apps: &'a [AppView], params: ParamsView, poll_at_start: Option<Duration>) -> CheckInputs<'a> {
-    let mut inp = CheckInputs { params, apps, poll_at_start, http: vec![], plans: vec![], can_start: vec![], installs: vec![], reboot_needed: vec![] };
+    let mut inp = CheckInputs { params, apps, poll_at_start, http: vec![], plans: vec![], can_start: vec![], installs: vec![], reboot_needed: vec![], construction_failure: None };
     for op in &log[seg.start..seg.end] {
         match op {
             Op::HttpDone { answer, .. } => inp.http.push(answer),
